@@ -69,9 +69,6 @@ def compileItem (p : Pos) : PrintItem → Code
   | .comma => [(.printComma, p)]
   | .semicolon => [(.printSemicolon, p)]
 
-/-- `generate_is_zero`: A := (A = 0), used by `UNTIL` -/
-def isZero (p : Pos) : Code := [(.copyAToB, p), (.loadA (.int 0), p), (.bin .equal, p)]
-
 /-- one CASE item: `generate_case_expression` (jump to `next` when it does not match) -/
 def compileCaseExpr (p : Pos) (next : Nat) : CaseExpr → Code
   | .simple e =>
@@ -121,8 +118,8 @@ def sizeStmt : SStmt → Nat
      | some s => 1 + (compileExpr s).length + 8 + sizeForBody x body + 2 + 3 + sizeForBody x body + 4)
   | .while c body _ => 1 + (compileExpr c).length + 1 + sizeStmt body + 2
   | .doLoop c top u body _ =>
-    if top then 1 + (compileExpr c).length + (if u then 3 else 0) + 1 + sizeStmt body + 2
-    else 1 + sizeStmt body + (compileExpr c).length + (if u then 3 else 0) + 3
+    if top then 1 + (compileExpr c).length + (if u then 3 else 1) + sizeStmt body + 2
+    else 1 + sizeStmt body + (compileExpr c).length + (if u then 1 else 2) + 1
   | .end_ _ => 1
 /-- loop head + body + increment (`generate_for_loop_instructions_positive_or_negative_step`) -/
 def sizeForBody (_x : Nat) (body : SStmt) : Nat :=
@@ -243,18 +240,19 @@ def compileStmt : String → Nat → SStmt → Code
       compileStmt sfx bodyOff body ++ [(.jump off, p), (.label (labelName "wend" p sfx), p)]
   | sfx, off, .doLoop c top u body p =>
     let nc := (compileExpr c).length
-    let nu := if u then 3 else 0
     if top then
-      let bodyOff := off + 1 + nc + nu + 1
+      let bodyOff := off + 1 + nc + (if u then 3 else 1)
       let loopOff := bodyOff + sizeStmt body + 1
-      [(.label (labelName "do" p sfx), p)] ++ compileExpr c ++ (if u then isZero p else []) ++
-        [(.jumpIfFalse loopOff, p)] ++ compileStmt sfx bodyOff body ++
+      [(.label (labelName "do" p sfx), p)] ++ compileExpr c ++
+        (if u then [(.jumpIfFalse (bodyOff - 1), p), (.jump loopOff, p), (.label (labelName "do-body" p sfx), p)]
+         else [(.jumpIfFalse loopOff, p)]) ++
+        compileStmt sfx bodyOff body ++
         [(.jump off, p), (.label (labelName "loop" p sfx), p)]
     else
-      let loopOff := off + 1 + sizeStmt body + nc + nu + 2
+      let loopOff := off + 1 + sizeStmt body + nc + (if u then 1 else 2)
       [(.label (labelName "do" p sfx), p)] ++ compileStmt sfx (off + 1) body ++ compileExpr c ++
-        (if u then isZero p else []) ++
-        [(.jumpIfFalse loopOff, p), (.jump off, p), (.label (labelName "loop" p sfx), p)]
+        (if u then [(.jumpIfFalse off, p)] else [(.jumpIfFalse loopOff, p), (.jump off, p)]) ++
+        [(.label (labelName "loop" p sfx), p)]
   | sfx, _, .end_ p => [(.halt, p)]
 /-- the ELSEIF arms starting at `off` (the address of the label of arm `i`) -/
 def compileElifs : String → Pos → Nat → Nat → Nat → Nat → ElseIfs → Code
